@@ -231,7 +231,7 @@ impl X {
                         if !is_mut_ref || !vm {
                             return Err("visitor not passed as `&mut` of a mutable local".into());
                         }
-                        Ok((format!("{r}.visit ({ln}.visit_file ops eo) ({ln}.visit_additional_metadata ops eo) {v}"), K::Other, ErrK::Zip, Some(v)))
+                        Ok((format!("Rs.X.unK ({r}.visit ({ln}.visit_file ops eo) ({ln}.visit_additional_metadata ops eo) {v})"), K::Other, ErrK::Zip, Some(v)))
                     }
                     _ => Err(format!("call `.{name}(..)?`")),
                 }
@@ -496,10 +496,24 @@ impl X {
         let (name, args, is_method): (String, Vec<&Expr>, bool) = match e {
             Expr::MethodCall(m) => {
                 if ident_of(&m.receiver).as_deref() != Some("self") { return Ok(None); }
+                if m.method == "visit" && self.vars.get("self").map(|x| &x.0) == Some(&K::Stream) {
+                    // `let visited = self.visit(&mut visitor);`: the `Result` as a value, the visitor as `visit` left it
+                    if mutable {
+                        return Err("let of the result of `visit`".into());
+                    }
+                    let (c, _, ek, wb) = self.call(e)?;
+                    let c = c.strip_prefix("Rs.X.unK ").ok_or("visit computation")?.to_string();
+                    let w = wb.ok_or("visit without its visitor")?;
+                    let t = self.fresh();
+                    self.emit(format!("let ({v}, {t}) ← Rs.X.keep {c}"));
+                    self.emit(format!("{w} := {t}"));
+                    self.vars.insert(v.to_string(), (K::Res(ek), String::new(), false));
+                    return Ok(Some(()));
+                }
                 (m.method.to_string(), m.args.iter().collect(), true)
             }
             Expr::Call(c) => match &*c.func {
-                Expr::Path(p) if p.path.segments.len() == 1 => (path_last(&p.path), c.args.iter().collect(), false),
+                Expr::Path(p) if p.path.segments.iter().rev().skip(1).all(|s| s.ident == "super") => (path_last(&p.path), c.args.iter().collect(), false),
                 _ => return Ok(None),
             },
             _ => return Ok(None),
@@ -895,6 +909,57 @@ impl X {
     }
 }
 
+/// the leaf statements of a block (plain nested blocks flattened)
+fn leaf_stmts<'a>(b: &'a Block, out: &mut Vec<&'a Stmt>) {
+    for s in &b.stmts {
+        match s {
+            Stmt::Expr(Expr::Block(eb), _) if eb.label.is_none() => leaf_stmts(&eb.block, out),
+            _ => out.push(s),
+        }
+    }
+}
+
+/// in a callback of a local visitor: every write to `self` follows the last `?` (`Basic/RsX.lean`, `StreamOps`)
+fn self_writes_follow_tries(b: &Block) -> bool {
+    fn root(e: &Expr) -> Option<String> {
+        match e {
+            Expr::Field(f) => root(&f.base),
+            Expr::Reference(r) => root(&r.expr),
+            Expr::Paren(p) => root(&p.expr),
+            Expr::Index(i) => root(&i.expr),
+            _ => ident_of(e),
+        }
+    }
+    struct F { tries: bool, writes: bool }
+    impl<'ast> syn::visit::Visit<'ast> for F {
+        fn visit_expr_try(&mut self, t: &'ast ExprTry) { self.tries = true; syn::visit::visit_expr_try(self, t); }
+        fn visit_expr_method_call(&mut self, m: &'ast ExprMethodCall) {
+            // `push` / `sort_by_key` are the mutating methods of the subset (another one leaves the item untranslated)
+            if (m.method == "push" || m.method == "sort_by_key") && root(&m.receiver).as_deref() == Some("self") { self.writes = true; }
+            syn::visit::visit_expr_method_call(self, m);
+        }
+        fn visit_expr_assign(&mut self, a: &'ast ExprAssign) {
+            if root(&a.left).as_deref() == Some("self") { self.writes = true; }
+            syn::visit::visit_expr_assign(self, a);
+        }
+        fn visit_expr_reference(&mut self, r: &'ast ExprReference) {
+            if r.mutability.is_some() && root(&r.expr).as_deref() == Some("self") { self.writes = true; }
+            syn::visit::visit_expr_reference(self, r);
+        }
+    }
+    let mut leaves = vec![];
+    leaf_stmts(b, &mut leaves);
+    let mut last_try: Option<usize> = None;
+    let mut first_write: Option<usize> = None;
+    for (i, st) in leaves.iter().enumerate() {
+        let mut f = F { tries: false, writes: false };
+        syn::visit::Visit::visit_stmt(&mut f, st);
+        if f.tries { last_try = Some(i); }
+        if f.writes && first_write.is_none() { first_write = Some(i); }
+    }
+    !matches!((last_try, first_write), (Some(t), Some(w)) if w <= t)
+}
+
 fn find_fn<'a>(all: &[&'a Item], name: &str) -> Option<(&'a Signature, &'a Block, Option<String>, proc_macro2::TokenStream, (usize, usize))> {
     if let Some((ty, m)) = name.split_once("::") {
         let (_im, f) = t6l::find_method(all, ty, m)?;
@@ -1032,6 +1097,9 @@ pub fn translate_efn(all: &[&Item], name: &str) -> R<(String, String, usize, usi
             for ii in &im.items {
                 match ii {
                     ImplItem::Fn(f) if cfg_on(&f.attrs) => {
+                        if !self_writes_follow_tries(&f.block) {
+                            return Err(format!("{tn}::{}: a write to the visitor before the last `?`", f.sig.ident));
+                        }
                         let (t, _) = translate_one(&format!("{ln}.{}", f.sig.ident), &f.sig, &f.block, Some((K::Local(tn.clone()), format!("({ln} P)"))), &locals).map_err(|e| format!("{tn}::{}: {e}", f.sig.ident))?;
                         text += &t;
                         text.push('\n');
